@@ -104,7 +104,8 @@ fn submsg(kind: &str, prof: u64) -> SubMsg<Empty> {
     let (id, gas, on, payload): (u64, Option<u64>, ReplyOn, &[u8]) = match prof {
         1 => (0, None, ReplyOn::Never, b""),
         2 => (7, Some(500), ReplyOn::Always, b"p"),
-        3 => (1 << 40, None, ReplyOn::Success, b"pay"),
+        3 => (9, Some(3), ReplyOn::Never, b"x"),
+        4 => (1 << 40, None, ReplyOn::Success, b"pay"),
         _ => (1, Some(1), ReplyOn::Error, b""),
     };
     SubMsg { id, msg: cosmos(kind), gas_limit: gas, reply_on: on, payload: Binary::from(payload.to_vec()) }
